@@ -51,7 +51,7 @@ func replayC37(c *C, in replayIn) {
 	case "linked":
 		fd, err := protoregistry.GlobalFiles.FindFileByPath(in.Path)
 		if err != nil {
-			c.Check(false, "replay: linked file not found: "+in.Path, in, "")
+			chk(c, false, "replay: linked file not found: "+in.Path, in, "")
 			return
 		}
 		checkLinkedC37(c, fd)
@@ -60,7 +60,7 @@ func replayC37(c *C, in replayIn) {
 		for _, d := range in.Deps {
 			dfd, err, pn := newFile(fdpOfHex(d), depResolver{reg}, false)
 			if err != nil || pn != nil {
-				c.Check(false, "replay: dependency does not build: "+errClass(err, pn), in, "")
+				chk(c, false, "replay: dependency does not build: "+errClass(err, pn), in, "")
 				return
 			}
 			reg.RegisterFile(dfd)
@@ -76,12 +76,12 @@ func checkLinkedC37(c *C, fd protoreflect.FileDescriptor) {
 	c.Case("linked:"+fd.Path(), nontrivialFile(p))
 	c.Hist("A:syntax=" + fd.Syntax().String())
 	ref, err, pn := newFile(p, protoregistry.GlobalFiles, false)
-	if !c.Check(err == nil && pn == nil, "NewFile(ToProto(fd)) fails for linked file "+fd.Path()+": "+errClass(err, pn), in, "") {
+	if !chk(c, err == nil && pn == nil, "NewFile(ToProto(fd)) fails for linked file "+fd.Path()+": "+errClass(err, pn), in, "") {
 		return
 	}
 	sRef := snapshotFile(ref)
 	if s := snapshotFile(fd); s != sRef {
-		c.Check(false, "linked descriptor (filedesc via filetype) and protodesc.NewFile disagree for "+fd.Path()+": "+firstDiff(s, sRef), in, classifySnapshots(p, s, sRef))
+		chk(c, false, "linked descriptor (filedesc via filetype) and protodesc.NewFile disagree for "+fd.Path()+": "+firstDiff(s, sRef), in, classifySnapshots(p, s, sRef))
 	}
 	standaloneC37(c, p, depResolver{}, sRef, in)
 }
@@ -93,7 +93,7 @@ func checkProtoC37(c *C, p *descriptorpb.FileDescriptorProto, deps []string, reg
 	c.Hist("B:syntax=" + p.GetSyntax() + fmt.Sprint(p.GetEdition()))
 	r := depResolver{reg}
 	ref, err, pn := newFile(p, r, false)
-	if !c.Check(err == nil && pn == nil, "NewFile rejects a valid generated schema: "+errClass(err, pn), in, "") {
+	if !chk(c, err == nil && pn == nil, "NewFile rejects a valid generated schema: "+errClass(err, pn), in, "") {
 		return
 	}
 	// filedesc.Builder "assumes that the inputs are well-formed" = as protoc emits them: every field carries its type,
@@ -102,7 +102,7 @@ func checkProtoC37(c *C, p *descriptorpb.FileDescriptorProto, deps []string, reg
 		p = protodesc.ToFileDescriptorProto(ref)
 		in.FDP = hexOf(p)
 		ref, err, pn = newFile(p, r, false)
-		if !c.Check(err == nil && pn == nil, "NewFile rejects ToProto(NewFile(p)): "+errClass(err, pn), in, "") {
+		if !chk(c, err == nil && pn == nil, "NewFile rejects ToProto(NewFile(p)): "+errClass(err, pn), in, "") {
 			return
 		}
 	}
@@ -118,7 +118,7 @@ func standaloneC37(c *C, p *descriptorpb.FileDescriptorProto, r depResolver, sRe
 		p = proto.Clone(p).(*descriptorpb.FileDescriptorProto)
 		p.SourceCodeInfo = nil
 		ref, err, pn := newFile(p, r, false)
-		if !c.Check(err == nil && pn == nil, "NewFile rejects p without source info: "+errClass(err, pn), in, "") {
+		if !chk(c, err == nil && pn == nil, "NewFile rejects p without source info: "+errClass(err, pn), in, "") {
 			return
 		}
 		sRef = snapshotFile(ref)
@@ -126,18 +126,18 @@ func standaloneC37(c *C, p *descriptorpb.FileDescriptorProto, r depResolver, sRe
 	}
 	raw, err := proto.MarshalOptions{Deterministic: true}.Marshal(p)
 	if err != nil {
-		c.Check(false, "marshal: "+err.Error(), in, "")
+		chk(c, false, "marshal: "+err.Error(), in, "")
 		return
 	}
 	built, pn := buildRaw(raw, r)
-	if !c.Check(pn == nil, fmt.Sprintf("filedesc.Builder panics on a descriptor protodesc.NewFile accepts: %v", pn), in, "") {
+	if !chk(c, pn == nil, fmt.Sprintf("filedesc.Builder panics on a descriptor protodesc.NewFile accepts: %v", pn), in, "") {
 		return
 	}
 	var pre, post, s string
 	func() {
 		defer func() {
 			if e := recover(); e != nil {
-				c.Check(false, fmt.Sprintf("accessor of a filedesc-built descriptor panics: %v", e), in, "")
+				chk(c, false, fmt.Sprintf("accessor of a filedesc-built descriptor panics: %v", e), in, "")
 			}
 		}()
 		pre = snapshotL1(built)
@@ -148,9 +148,9 @@ func standaloneC37(c *C, p *descriptorpb.FileDescriptorProto, r depResolver, sRe
 	if s == "" {
 		return
 	}
-	c.Check(pre == post, "L1 accessors change when lazy initialisation is forced: "+firstDiff(pre, post), in, "")
+	chk(c, pre == post, "L1 accessors change when lazy initialisation is forced: "+firstDiff(pre, post), in, "")
 	if s != sRef {
-		c.Check(false, "standalone filedesc.Builder and protodesc.NewFile disagree: "+firstDiff(s, sRef), in, classifySnapshots(p, s, sRef))
+		chk(c, false, "standalone filedesc.Builder and protodesc.NewFile disagree: "+firstDiff(s, sRef), in, classifySnapshots(p, s, sRef))
 	}
 }
 
